@@ -32,7 +32,7 @@ RULE = (
 ASSUMPTIONS = [
     "words without a greedy-regex derivation are set aside (class named in the property statement) and counted",
     "words are at most 6 characters / 4 bytes; parser state budget hits are inconclusive, not violations",
-    "binary specs: fixed-width bit fields, ASCII text literals",
+    "binary specs: fixed-width bit fields, ASCII-only regexes (non-ASCII text literals are generated)",
 ]
 
 
@@ -44,8 +44,8 @@ def shards(tier: str) -> int:
 def ingredients(draw: Any) -> dict[str, Any]:
     mode = draw(st.sampled_from(["text", "text", "bin"]))
     sw: dict[str, Any] = {"mode": mode}
+    sw["non_ascii"] = draw(st.integers(0, 3)) == 0
     if mode == "text":
-        sw["non_ascii"] = draw(st.integers(0, 4)) == 0
         sw["empty_literal"] = draw(st.integers(0, 5)) == 0
         sw["regex"] = draw(st.sampled_from(["guarded", "guarded", "none", "empty"]))
     spec = draw(specgen.grammars(sw))
